@@ -471,7 +471,33 @@ func ruleKeyedStores(r *Run) {
 		n := 0
 		bad := false
 		group := funcGroup(fn)
+		var keyAlias ssa.Value // X as seen by the caller when the key comes out of a (X, key) helper
 		keyOK := func(k ssa.Value, at ssa.Instruction) (ssa.Value, bool) {
+			// the second result of a small helper returning (X, X.Key()) stands for X.Key()
+			keyAlias = nil
+			if ex, isEx := k.(*ssa.Extract); isEx {
+				if hc, isCall := ex.Tuple.(*ssa.Call); isCall {
+					if callee := staticCallee(hc); callee != nil && callee.Blocks != nil && len(callee.Blocks) <= 4 && pkgOfFunc(callee) == pkgOfFunc(fn) {
+						if rets := returnsOf(callee); len(rets) == 1 && ex.Index < len(rets[0].Results) {
+							if inner, isC := rets[0].Results[ex.Index].(*ssa.Call); isC {
+								k = inner
+								// the caller sees X as the helper's other result
+								if invokeIs(inner, "Key") {
+									for ri, rv := range rets[0].Results {
+										if rv == inner.Call.Value && hc.Referrers() != nil {
+											for _, ref := range *hc.Referrers() {
+												if e2, ok := ref.(*ssa.Extract); ok && e2.Index == ri {
+													keyAlias = e2
+												}
+											}
+										}
+									}
+								}
+							}
+						}
+					}
+				}
+			}
 			kc, ok := k.(*ssa.Call)
 			// a small helper that returns X.Key() stands for it
 			for d := 0; ok && d < 3 && !invokeIs(kc, "Key"); d++ {
@@ -551,7 +577,7 @@ func ruleKeyedStores(r *Run) {
 						}
 					}
 					// the stored value's label-set field derives from X
-					if !valueCarriesSet(x.Value, s.setField, X) {
+					if !valueCarriesSet(x.Value, s.setField, X) && !(keyAlias != nil && valueCarriesSet(x.Value, s.setField, keyAlias)) {
 						bad = true
 						o.Fail(r.pos(x.Pos()), "the value stored under X.Key() does not carry X in its %s field", s.setField)
 					}
